@@ -9,5 +9,9 @@ import facts
 d = sys.argv[1] if len(sys.argv) > 1 else facts.ensure_facts()[0]
 F = facts.Facts(d)
 names = sorted(F.fns)
-json.dump(names, open('/verif/rules/known_fns.json', 'w'), indent=0)
-print(len(names), 'functions frozen from', d)
+fp = {}
+for n in names:
+    if F.has_raw(n) and '::{' not in n and not n.startswith('<'):
+        fp[n] = facts.fingerprint_of(F, n)
+json.dump({'names': names, 'fp': fp}, open('/verif/rules/known_fns.json', 'w'), indent=0)
+print(len(names), 'functions frozen from', d, '-', len(fp), 'fingerprints')
